@@ -433,6 +433,22 @@ def driver_problem(out):
 
 def run_lane(ctx, table_hint=None):
     """returns nothing; reports through ctx"""
+    ctx.assumptions += [
+        "connection lane: the kernel's TCP is replaced by an in-memory pipe (a Write returns when the handler has read the bytes); registry "
+        "operations are interleaved with the connection at Read granularity (they run while the handler is parked in a Read) - mutation "
+        "concurrent with one lookup is C09's; the station's single sweeper is represented by serialised calls of the real RemoveOldRegistrations",
+        "connection lane: expiry = the timeout record moved 7 h into the past + the real sweep (the 10 min / 6 h lifetimes themselves are C08's; "
+        "composed in coq/C02/PropsBridge.v)",
+    ]
+    ctx.cov["trusted_base"] = list(ctx.cov.get("trusted_base", [])) + [
+        "hand-written handler model coq/C02/ModelConn.v tied to cmd/application/conns.go handleNewTCPConn by the replay of every recorded "
+        "connection (coq/C02/RunConn.v; the replay is proved sound for the model's step function: C02_conn_replay_is_model_run)",
+        "overlay-only export shims harness/inpkg/c02/{lib_export_conn.go, obfs4_export_conn.go} (detector hooks, ageing of timeout records, "
+        "the station's obfs4 mark derivation)",
+    ]
+    ctx.cov["rule"] = (ctx.cov.get("rule", "") + "; connection lane: a case is one history (registry operations interleaved with the steps of "
+                       "one or two connections handled by the real handleNewTCPConn), hash-distinct by (class, transport, steps, outcome, "
+                       "stream); kinds are conn/<history class>/<transport>/<tunnel|no-tunnel>")
     replayed = []
     for f in (ctx.replay or {}).get("failures", []) + (ctx.replay or {}).get("theorem_or_correspondence", []):
         c = f.get("case") or {}
